@@ -1164,3 +1164,65 @@ Proof.
   rewrite rev_involutive in M. unfold S in M. rewrite map_map in M.
   unfold xv in M. unfold xval. rewrite M. reflexivity.
 Qed.
+
+(* ------------------------------------------------------------------ nulls inside the value *)
+Lemma strip_some : forall x, x <> Null -> purge x = Some (strip x).
+Proof. intros [| z | l] N; [congruence|reflexivity|]. unfold strip. now rewrite purge_obj. Qed.
+
+(* what lies under a suffix of the stripped value is the stripped part *)
+Lemma value_at_strip : forall s v x, wf_tree v = true -> value_at s v = Some x -> x <> Null ->
+  value_at s (strip v) = Some (strip x).
+Proof.
+  induction s as [|k r IH]; intros v x W V N.
+  - cbn in V. injection V as <-. reflexivity.
+  - destruct v as [| z | l]; try discriminate. cbn [value_at] in V.
+    destruct (lookup k l) as [c|] eqn:EL; [|discriminate].
+    pose proof W as W'. apply wf_obj in W'. destruct W' as [S _].
+    assert (Wc : wf_tree c = true) by (eapply wf_lookup; eauto).
+    assert (Nc : c <> Null).
+    { intros ->. destruct r; cbn in V; [injection V as <-; congruence|discriminate]. }
+    unfold strip at 1. rewrite purge_obj. cbn [value_at]. rewrite lookup_purge_list by exact S. rewrite EL.
+    rewrite (strip_some c Nc). now apply IH.
+Qed.
+
+(* Get of the same request with nulls INSIDE the written parts: returns v with the nulls stripped.
+   Extra hypothesis UC: the unused-branch check also passes on the stripped value. *)
+Theorem view_read_after_write_same_request_nulls : forall rules req v v' ws lms t b,
+  set_writes rules req v = (ROk, ws) -> Forall is_set ws ->
+  matches readable rules req = matches writeable rules req ->
+  literal_matches (matches writeable rules req) = Some lms ->
+  (forall ws1 d ws2, ws = ws1 ++ d :: ws2 -> forall d', In d' ws2 -> is_prefix (fst d) (fst d') = false) ->
+  apply_deltas (tx_pristine t) (tx_deltas t) = Some b ->
+  wf_tree v = true -> purge v = Some v' ->
+  NoDup (map snd (sort_by snd lms)) ->
+  (forall s s', In s (map snd lms) -> In s' (map snd lms) -> s = s' \/ diverge s s' = true) ->
+  fold_left prune_step (rev (map snd (sort_by snd lms))) (Some (Some v')) = Some None ->
+  view_get rules (tx_get (add_deltas t ws)) req = VOk v'.
+Proof.
+  intros rules req v v' ws lms t b H F MRW EL NP AD W PV ND PD UC.
+  rewrite (view_read_after_write_merge rules req v ws lms t b H F MRW EL NP AD).
+  destruct (set_writes_facts _ _ _ _ _ H EL) as [_ VA].
+  destruct (set_writes_ws _ _ _ _ H) as (lms' & EL' & Ews). rewrite EL in EL'. injection EL' as <-.
+  assert (SV : strip v = v') by (unfold strip; now rewrite PV).
+  assert (NN : forall m, In m lms -> xval v m <> Null).
+  { intros m I. rewrite Forall_forall in F. apply (proj2 (in_sort_by fst lms m)) in I.
+    assert (X : In (fst m, xval v m) ws) by (rewrite Ews; exact (in_map (fun m0 : lmatch => (fst m0, xval v m0)) _ m I)).
+    destruct (F _ X) as [N _]. exact N. }
+  assert (VS : forall m, In m lms -> value_at (snd m) v' = Some (strip (xval v m))).
+  { intros m I. rewrite <- SV. specialize (VA m I). specialize (NN m I). unfold xval in *.
+    destruct (value_at (snd m) v) as [x|] eqn:V; [|congruence]. now apply value_at_strip. }
+  set (S := map snd (sort_by snd lms)) in *.
+  assert (INS : forall s, In s S -> exists m, In m lms /\ snd m = s).
+  { intros s I. apply in_map_iff in I. destruct I as (m & E & I). apply (proj1 (in_sort_by snd lms m)) in I.
+    exists m. split; assumption. }
+  assert (M : merge_all (map (fun s => nest s (xv v' s)) (rev (rev S))) = Some (Some v')).
+  { apply prune_all_merge; [eapply wf_purge; eauto| | |exact UC].
+    - apply pw_from; [now apply NoDup_rev|]. intros s s' I I'. apply in_rev in I. apply in_rev in I'.
+      destruct (INS s I) as (m & Im & <-). destruct (INS s' I') as (m' & Im' & <-).
+      apply PD; now apply in_map.
+    - intros s I. apply in_rev in I. destruct (INS s I) as (m & Im & <-). rewrite (VS m Im). discriminate. }
+  rewrite rev_involutive in M. unfold S in M. rewrite map_map in M.
+  rewrite (map_ext_in (fun m => nest (snd m) (strip (xval v m))) (fun m => nest (snd m) (xv v' (snd m)))).
+  - now rewrite M.
+  - intros m I. apply (proj1 (in_sort_by snd lms m)) in I. unfold xv. now rewrite (VS m I).
+Qed.
